@@ -53,6 +53,15 @@ Theorem C02_create_adds_one : forall s n v j, snd (step s (ONew n)) = Ok v ->
 Proof. exact held_new. Qed.
 Print Assumptions C02_create_adds_one.
 
+(* ... also when the qubit is created inside an existing register (remote_new_qubit_inreg); creating a register creates no qubit ... *)
+Theorem C02_create_in_register_adds_one : forall s n ow k v j, snd (step s (ONewInReg n ow k)) = Ok v ->
+  held (fst (step s (ONewInReg n ow k))) j = if Nat.eqb j n then S (held s j) else held s j.
+Proof. exact held_new_inreg. Qed.
+Print Assumptions C02_create_in_register_adds_one.
+Theorem C02_create_register_keeps_population : forall s n mq j, held (fst (step s (ONewReg n mq))) j = held s j.
+Proof. exact held_newreg. Qed.
+Print Assumptions C02_create_register_keeps_population.
+
 (* ... destructive measurement removes exactly one ... *)
 Theorem C02_destructive_measure_removes_one : forall s h c v vi q j,
   hid_inv s -> find_handle s h = Some (vi, q) -> snd (step s (OMeas h false c)) = Ok v ->
@@ -84,11 +93,24 @@ Theorem C02_unsuccessful_keeps_population : forall s o j,
 Proof. exact held_unchanged_unless_ok. Qed.
 Print Assumptions C02_unsuccessful_keeps_population.
 
-(* registers are never empty at a quiescent point, and a node keeps at most as many registers as it simulates qubits *)
+(* registers are never empty at a quiescent point, and a node keeps at most as many registers as it simulates qubits -- for every
+   history WITHOUT the client operation remote_add_register (`reachable_core`: any list of the other six operations, failed ones
+   included): that operation creates an empty register on purpose *)
 From SQ Require Import Net.NonEmpty.
-Theorem C02_registers_nonempty : forall s i r, reachable s -> In r (regs (nth_node s i)) -> 0 < r_n r.
+Theorem C02_registers_nonempty : forall s i r, reachable_core s -> In r (regs (nth_node s i)) -> 0 < r_n r.
 Proof. exact registers_nonempty. Qed.
 Print Assumptions C02_registers_nonempty.
-Theorem C02_registers_le_sims : forall s i, reachable s -> length (regs (nth_node s i)) <= length (sims (nth_node s i)).
+Theorem C02_registers_le_sims : forall s i, reachable_core s -> length (regs (nth_node s i)) <= length (sims (nth_node s i)).
 Proof. exact registers_le_sims. Qed.
 Print Assumptions C02_registers_le_sims.
+(* the extra hypothesis is needed: one remote_add_register leaves an empty register on a node that holds nothing *)
+Theorem C02_registers_nonempty_needs_core_refuted :
+  exists s, reachable s /\ (forall i, virt (nth_node s i) = []) /\
+            exists r, In r (regs (nth_node s 0)) /\ r_n r = 0 /\ numRegs (nth_node s 0) = 1.
+Proof. exact nonempty_needs_core_refuted. Qed.
+Print Assumptions C02_registers_nonempty_needs_core_refuted.
+(* what holds for ALL histories: when no node holds a qubit, no simulated qubit is left and every remaining register is empty *)
+Theorem C02_nothing_held_only_empty_registers : forall s, reachable s -> (forall i, virt (nth_node s i) = []) ->
+  forall i, sims (nth_node s i) = [] /\ (forall r, In r (regs (nth_node s i)) -> r_n r = 0).
+Proof. exact nothing_held_only_empty_registers. Qed.
+Print Assumptions C02_nothing_held_only_empty_registers.
